@@ -37,7 +37,7 @@ def _binsem():
 
 
 class _T:
-    __slots__ = ("tid", "sem", "pending", "blocked", "finished", "result", "exc", "thread", "started")
+    __slots__ = ("tid", "sem", "pending", "blocked", "finished", "result", "exc", "thread", "started", "started_running")
 
     def __init__(self, tid: int):
         self.tid = tid
@@ -49,6 +49,7 @@ class _T:
         self.exc: Optional[BaseException] = None
         self.thread: Optional[threading.Thread] = None
         self.started = False
+        self.started_running = False
 
 
 # context switches only at these operations (plus each thread's first one) in coarse mode;
@@ -57,7 +58,7 @@ COARSE = frozenset({"acq", "rel", "create", "upload", "complete", "vget", "vset"
 
 
 class Sched:
-    TIMEOUT = 20.0
+    TIMEOUT = 10.0
 
     def __init__(self, coarse: Optional[frozenset] = None):
         self.threads: List[_T] = []
@@ -67,6 +68,7 @@ class Sched:
         self.labels: List[str] = []
         self.fine: List[int] = []  # the schedule at the model's (fine) step granularity
         self.coarse = coarse
+        self.gate: Dict[int, Callable[[], bool]] = {}  # tid -> "must not start yet"
 
     # ---- worker side
     def yield_point(self, label: str, blocked: Optional[Callable[[], bool]] = None):
@@ -130,6 +132,8 @@ class Sched:
             return False
         if t.blocked is not None and t.blocked():
             return False
+        if tid in self.gate and not t.started_running and self.gate[tid]():
+            return False
         return True
 
     def enabled(self) -> List[int]:
@@ -146,6 +150,7 @@ class Sched:
             self.labels.append(f"{tid}:{t.pending}!")
             return
         self.labels.append(f"{tid}:{t.pending}")
+        t.started_running = True
         t.sem.release()
         self._wait()
 
@@ -330,7 +335,7 @@ class System:
     """
 
     def __init__(self, kinds: List[str], workers: Optional[List[int]] = None,
-                 coarse: Optional[frozenset] = None):
+                 coarse: Optional[frozenset] = None, gate_fin: bool = False):
         import distributed
         from odc.geo.cog import _s3
 
@@ -372,6 +377,12 @@ class System:
             else:
                 part = int(k[1:])
                 self.sched.spawn(lambda wr=wr, part=part: wr(part, b"x" * part))
+        if gate_fin:
+            # a finalise is given its parts by the writes: it cannot start before they returned
+            ws = [i for i, k in enumerate(kinds) if k != "f"]
+            for i, k in enumerate(kinds):
+                if k == "f":
+                    self.sched.gate[i] = lambda ws=ws: any(not self.sched.threads[j].finished for j in ws)
 
     def close(self):
         self.sched.abort()
@@ -419,13 +430,13 @@ class System:
 
 
 def run_schedule(kinds, workers, prefix: List[int], complete: bool = True,
-                 coarse: Optional[frozenset] = None):
+                 coarse: Optional[frozenset] = None, gate_fin: bool = False):
     """Run the real code under `prefix` (one entry per scheduler step), then (if
     `complete`) continue with the lowest enabled thread until no thread is enabled.
     Returns (system-after-run, choices), choices[i] = (enabled threads before step i,
     index chosen or -1 for a stutter).  `system.sched.fine` is the schedule at the model's
     step granularity (identical to the steps taken unless `coarse`)."""
-    sysm = System(kinds, workers, coarse)
+    sysm = System(kinds, workers, coarse, gate_fin)
     choices: List[Tuple[List[int], int]] = []
     try:
         i = 0
@@ -447,14 +458,14 @@ def run_schedule(kinds, workers, prefix: List[int], complete: bool = True,
 
 
 def all_schedules(kinds, workers, coarse: Optional[frozenset] = None, root: Optional[List[int]] = None,
-                  lo: int = 0, hi: Optional[int] = None, limit: Optional[int] = None):
+                  lo: int = 0, hi: Optional[int] = None, limit: Optional[int] = None, gate_fin: bool = False):
     """Stateless depth-first enumeration of the maximal schedules of the real code (only
     enabled threads are scheduled) that start with `root`; alternatives are explored at
     step positions lo <= k < hi only.  Yields (choices, system)."""
     prefix: List[int] = list(root or [])
     n = 0
     while True:
-        sysm, ch = run_schedule(kinds, workers, prefix, True, coarse)
+        sysm, ch = run_schedule(kinds, workers, prefix, True, coarse, gate_fin)
         yield [c[0][c[1]] for c in ch], sysm
         n += 1
         if limit is not None and n >= limit:
@@ -484,21 +495,65 @@ def observe(sysm: System) -> Dict[str, Any]:
 
 
 def _subtree(args):
-    kinds, workers, coarse, root, depth = args
-    return [observe(sm) for _, sm in all_schedules(kinds, workers, coarse, root=root, lo=depth)]
+    kinds, workers, coarse, root, depth, gate = args
+    return [observe(sm) for _, sm in all_schedules(kinds, workers, coarse, root=root, lo=depth, gate_fin=gate)]
 
 
-def enumerate_all(kinds, workers, coarse: Optional[frozenset] = None, procs: int = 1, depth: int = 6):
+def enumerate_all(kinds, workers, coarse: Optional[frozenset] = None, procs: int = 1, depth: int = 5,
+                  gate_fin: bool = False):
     """All maximal schedules, enumerated in `procs` processes (sub-trees below the distinct
     prefixes of length `depth`); result order is deterministic."""
     if procs <= 1:
-        return [observe(sm) for _, sm in all_schedules(kinds, workers, coarse)]
+        return [observe(sm) for _, sm in all_schedules(kinds, workers, coarse, gate_fin=gate_fin)]
     roots = []
-    for ch, _ in all_schedules(kinds, workers, coarse, hi=depth):
+    for ch, _ in all_schedules(kinds, workers, coarse, hi=depth, gate_fin=gate_fin):
         roots.append(ch[:depth])
     import multiprocessing as mp
 
     ctx = mp.get_context("fork")
     with ctx.Pool(min(procs, len(roots))) as pool:
-        parts = pool.map(_subtree, [(kinds, workers, coarse, r, depth) for r in roots], chunksize=1)
+        parts = pool.map(_subtree, [(kinds, workers, coarse, r, depth, gate_fin) for r in roots], chunksize=1)
+    return [o for part in parts for o in part]
+
+
+def run_random(kinds, workers, seed: int, stutter_p: float = 0.15, gate_fin: bool = False):
+    """one complete random schedule at fine granularity; with probability `stutter_p` a step
+    is offered to an arbitrary (possibly blocked or finished) thread"""
+    import random
+
+    rng = random.Random(seed)
+    sysm = System(kinds, workers, None, gate_fin)
+    try:
+        n = len(kinds)
+        while True:
+            en = sysm.sched.enabled()
+            if not en:
+                break
+            if rng.random() < stutter_p:
+                tid = rng.randrange(n)
+                if tid in sysm.sched.gate and tid not in en:
+                    continue  # a gated finalise has not been submitted yet
+            else:
+                tid = rng.choice(en)
+            sysm.sched.step(tid)
+        sysm.deadlock = any(not t.finished for t in sysm.sched.threads)
+    finally:
+        sysm.close()
+    return sysm
+
+
+def _random_batch(args):
+    kinds, workers, seeds, p, gate = args
+    return [observe(run_random(kinds, workers, sd, p, gate)) for sd in seeds]
+
+
+def random_runs(kinds, workers, seeds: List[int], procs: int = 1, stutter_p: float = 0.15, gate_fin: bool = False):
+    if procs <= 1 or len(seeds) < 64:
+        return _random_batch((kinds, workers, seeds, stutter_p, gate_fin))
+    import multiprocessing as mp
+
+    k = max(1, len(seeds) // (procs * 4))
+    chunks = [seeds[i:i + k] for i in range(0, len(seeds), k)]
+    with mp.get_context("fork").Pool(procs) as pool:
+        parts = pool.map(_random_batch, [(kinds, workers, c, stutter_p, gate_fin) for c in chunks], chunksize=1)
     return [o for part in parts for o in part]
